@@ -153,6 +153,12 @@ def _state_protocol(ctx, cls, defined, where):
     else:
         ss = sset.args.args[0].arg
         restored = {n.attr for n in ast.walk(sset) if isinstance(n, ast.Attribute) and isinstance(n.value, ast.Name) and n.value.id == ss and isinstance(n.ctx, ast.Store)}
+        for n in ast.walk(sset):
+            # self.__dict__["name"] = ... / setattr(self, "name", ...) / object.__setattr__(self, "name", ...)
+            if isinstance(n, ast.Subscript) and isinstance(n.ctx, ast.Store) and isinstance(n.slice, ast.Constant) and isinstance(n.slice.value, str) and ast.unparse(n.value) == f"{ss}.__dict__":
+                restored.add(n.slice.value)
+            if isinstance(n, ast.Call) and ast.unparse(n.func) in ("setattr", "object.__setattr__") and len(n.args) >= 3 and isinstance(n.args[0], ast.Name) and n.args[0].id == ss and isinstance(n.args[1], ast.Constant):
+                restored.add(n.args[1].value)
         txt = ast.unparse(sset)
         if f"{ss}.__dict__.update(" in txt or f"{ss}.__dict__ = " in txt:
             restored |= (set(ship) if by_attr_name else {k for k in ship if k in inst})
